@@ -20,6 +20,33 @@ except ImportError:  # pragma: no cover
 from .version import Version, VER_3_0, VER_2_0
 
 
+class _ColumnDict(SortableDict):
+    '''
+    The columns of a grid.  Column metadata given as a plain mapping is kept
+    in a MetadataObject bound to the grid (as the constructor does for its
+    `columns` argument), so that values stored into it later are checked
+    against the grid version as well.
+    '''
+
+    def __init__(self, grid):
+        self._grid = grid
+        super(_ColumnDict, self).__init__(
+            validate_fn=grid._detect_or_validate_column)
+
+    def __repr__(self):
+        return 'SortableDict{%s}' % ', '.join([
+            '%r=%r' % (k, v) for k, v in list(self.items())])
+
+    def add_item(self, key, value, *args, **kwargs):
+        validate = self._grid._detect_or_validate
+        if (isinstance(value, dict) or isinstance(value, SortableDict)) \
+                and getattr(value, '_validate_fn', None) != validate:
+            mo = MetadataObject(validate_fn=validate)
+            mo.extend(value)
+            value = mo
+        return super(_ColumnDict, self).add_item(key, value, *args, **kwargs)
+
+
 class Grid(col.MutableSequence):
     '''
     A grid is basically a series of tabular records.  The grid has a header
@@ -44,7 +71,7 @@ class Grid(col.MutableSequence):
         self.metadata = MetadataObject(validate_fn=self._detect_or_validate)
 
         # The columns
-        self.column = SortableDict(validate_fn=self._detect_or_validate_column)
+        self.column = _ColumnDict(self)
 
         # Rows
         self._row = []
